@@ -12,7 +12,7 @@ import os
 import shutil
 import subprocess
 import tempfile
-from concurrent.futures import ThreadPoolExecutor
+from concurrent.futures import ProcessPoolExecutor
 from contextlib import redirect_stdout
 
 from .core import AnalysisError, Program
@@ -56,6 +56,10 @@ def _variant(repo_root: str, patch: str, prop: str):
         shutil.rmtree(d, ignore_errors=True)
 
 
+def _job(args):
+    return _variant(*args)
+
+
 def run_for(prop: str, repo_root: str, seed: int = 0) -> dict:
     prop = prop.upper()
     out = {"mutants": [], "twins": []}
@@ -65,13 +69,17 @@ def run_for(prop: str, repo_root: str, seed: int = 0) -> dict:
             continue
         for name in sorted(os.listdir(base)):
             p = os.path.join(base, name, "patch.diff")
-            if name.startswith(prop + "-") and os.path.isfile(p):
+            # breaking changes: those written against this property; twins: ALL of them (a refactoring of any part of the
+            # package must leave this property's rules silent)
+            if os.path.isfile(p) and (kind == "twins" or name.startswith(prop + "-")):
                 jobs.append((kind, name, p))
-    with ThreadPoolExecutor(max_workers=min(16, max(1, len(jobs)))) as ex:
-        results = list(ex.map(lambda j: (j[0], j[1], _variant(repo_root, j[2], prop)), jobs))
-    for kind, name, (status, detail) in results:
+    with ProcessPoolExecutor(max_workers=min(16, max(1, len(jobs)))) as ex:
+        results = list(ex.map(_job, [(repo_root, j[2], prop) for j in jobs]))
+    for (kind, name, _), (status, detail) in zip(jobs, results):
         out[kind].append({"id": name, "result": status, "detail": detail})
     m, t = out["mutants"], out["twins"]
+    out["twins"] = [x for x in t if x["result"] != "silent"]
+    out["twins_silent_ids"] = [x["id"] for x in t if x["result"] == "silent"]
     out["summary"] = {
         "mutants_applied": sum(1 for x in m if x["result"] != "skipped"),
         "mutants_detected": sum(1 for x in m if x["result"] == "violation"),
